@@ -145,12 +145,12 @@ func runIndependence(p *Program, r *RuleResult) {
 			fresh := false
 			switch x := src.(type) {
 			case *ssa.Call:
-				if sc := x.Common().StaticCallee(); sc != nil && sc.Name() == "produceNameTypesCtx" {
+				if p.isFreshCtxFunc(x.Common().StaticCallee()) {
 					fresh = true
 				}
 			case *ssa.Extract:
 				if cc, ok := x.Tuple.(*ssa.Call); ok && x.Index == 0 {
-					if sc := cc.Common().StaticCallee(); sc != nil && sc.Name() == "splitGammaCtx" {
+					if p.isSplitCtxFunc(cc.Common().StaticCallee()) {
 						fresh = true
 					}
 				}
@@ -239,8 +239,21 @@ func runIndependence(p *Program, r *RuleResult) {
 			}
 			continue
 		}
-		// collection site
-		construct := "root-site:" + s.fn.Name()
+		// collection site: keyed by the kind of declaration (stable under renaming of the phase function)
+		declKind := "declarations"
+		if ld, ok := origin(s.prov).(*ssa.UnOp); ok {
+			if fa, ok := ld.X.(*ssa.FieldAddr); ok {
+				if n := namedOf(fa.X.Type()); n != nil {
+					declKind = n.Obj().Name()
+				}
+			}
+		} else if f, ok := origin(s.prov).(*ssa.Field); ok {
+			if n := namedOf(f.X.Type()); n != nil {
+				declKind = n.Obj().Name()
+			}
+		}
+		construct := "root-site:declared-" + declKind
+		name = "process typechecking phases"
 		provPath := accessPath(s.prov)
 		if provPath == "" {
 			r.add(name, construct, Undecided, p.instrPos(s.call), "provider type of the root judgement is not a field path")
